@@ -594,6 +594,11 @@ def win2d(x, n, c, i, j, k, s, p, d):
 
 
 # ------------------------------------------------------------------------------------------ conv
+# geometry arguments no sliding window can honour: a spacing or step that is zero, negative or fractional, negative padding
+BAD_GEOMETRY = [("F", {"d": 0}), ("M", {"d": 0}), ("F", {"d": -1}), ("F", {"s": 0}), ("F", {"s": 1.5}), ("M", {"s": -1}),
+                ("F", {"p": -1})]
+
+
 @reg
 class Conv1d(OpDef):
     name = "conv1d"
@@ -627,7 +632,9 @@ class Conv1d(OpDef):
                 # a bias that is not one value per output channel, input channels that do not match the weight
                 {"N": 1, "Ci": 1, "Co": 2, "L": 3, "k": 2, "s": 1, "p": 0, "d": 1, "bias": True, "via": "F", "bshape": [1]},
                 {"N": 1, "Ci": 1, "Co": 2, "L": 3, "k": 2, "s": 1, "p": 0, "d": 1, "bias": True, "via": "F", "bshape": [3]},
-                {"N": 1, "Ci": 2, "Co": 1, "L": 3, "k": 2, "s": 1, "p": 0, "d": 1, "bias": False, "via": "F", "xci": 1}]
+                {"N": 1, "Ci": 2, "Co": 1, "L": 3, "k": 2, "s": 1, "p": 0, "d": 1, "bias": False, "via": "F", "xci": 1}] + \
+               [dict({"N": 1, "Ci": 1, "Co": 1, "L": 5, "k": 2, "s": 1, "p": 0, "d": 1, "bias": False, "via": v}, **bad)
+                for v, bad in BAD_GEOMETRY]
 
     def inputs(self, args):
         ins = [Inp("x", (args["N"], args.get("xci", args["Ci"]), args["L"])), Inp("w", (args["Co"], args["Ci"], args["k"]), param=True)]
@@ -708,7 +715,10 @@ class Conv2d(OpDef):
                 {"H": 3, "W": 2, "k": [2, 2], "s": 1, "p": 0, "d": [1, 2], "N": 1, "Ci": 1, "Co": 1, "bias": False, "via": "F"},
                 {"H": 2, "W": 2, "k": [2, 2], "s": 1, "p": 0, "d": 1, "N": 1, "Ci": 1, "Co": 2, "bias": True, "via": "F", "bshape": [1]},
                 {"H": 2, "W": 2, "k": [2, 2], "s": 1, "p": 0, "d": 1, "N": 1, "Ci": 1, "Co": 2, "bias": True, "via": "F", "bshape": [2, 1]},
-                {"H": 2, "W": 2, "k": [2, 2], "s": 1, "p": 0, "d": 1, "N": 1, "Ci": 2, "Co": 1, "bias": False, "via": "F", "xci": 1}]
+                {"H": 2, "W": 2, "k": [2, 2], "s": 1, "p": 0, "d": 1, "N": 1, "Ci": 2, "Co": 1, "bias": False, "via": "F", "xci": 1}] + \
+               [dict({"H": 4, "W": 4, "k": [2, 2], "s": 1, "p": 0, "d": 1, "N": 1, "Ci": 1, "Co": 1, "bias": False, "via": v}, **bad)
+                for v, bad in BAD_GEOMETRY] + \
+               [{"H": 4, "W": 4, "k": [2, 2], "s": 1, "p": 0, "d": [1, 0], "N": 1, "Ci": 1, "Co": 1, "bias": False, "via": "F"}]
 
     def inputs(self, args):
         k = pair(arg(args["k"]))
@@ -788,6 +798,7 @@ class _Pool1d(OpDef):
 
     def illegal_configs(self, tier):
         out = [{"N": 1, "C": 1, "L": 2, "k": 3, "s": 1, "p": 0, "d": 1, "via": "F"}]
+        out += [dict({"N": 1, "C": 1, "L": 5, "k": 2, "s": 1, "p": 0, "d": 1, "via": v}, **bad) for v, bad in BAD_GEOMETRY]
         if self.is_max:
             # more padding than half the kernel: some window lies entirely in the padding, so "padding never wins" cannot be
             # honoured (the value would be the pad value -inf); PyTorch: "pad should be at most half of kernel size"
@@ -865,6 +876,7 @@ class _Pool2d(OpDef):
 
     def illegal_configs(self, tier):
         out = [{"H": 2, "W": 2, "k": 3, "s": 1, "p": 0, "d": 1, "N": 1, "C": 1, "via": "F"}]
+        out += [dict({"H": 4, "W": 4, "k": 2, "s": 1, "p": 0, "d": 1, "N": 1, "C": 1, "via": v}, **bad) for v, bad in BAD_GEOMETRY]
         if self.is_max:
             out += [{"H": 2, "W": 3, "k": 2, "s": 1, "p": [0, 2], "d": 1, "N": 1, "C": 1, "via": "F"},
                     {"H": 2, "W": 2, "k": [1, 2], "s": 1, "p": 1, "d": 1, "N": 1, "C": 1, "via": "M"}]
@@ -933,7 +945,8 @@ class NNUnfold(OpDef):
         return out
 
     def illegal_configs(self, tier):
-        return [{"H": 2, "W": 2, "k": [3, 1], "s": 1, "p": 0, "d": 1, "N": 1, "C": 1, "via": "F"}]
+        return [{"H": 2, "W": 2, "k": [3, 1], "s": 1, "p": 0, "d": 1, "N": 1, "C": 1, "via": "F"}] + \
+               [dict({"H": 4, "W": 4, "k": 2, "s": 1, "p": 0, "d": 1, "N": 1, "C": 1, "via": v}, **bad) for v, bad in BAD_GEOMETRY]
 
     def inputs(self, args):
         return [Inp("x", (args["N"], args["C"], args["H"], args["W"]))]
